@@ -5,7 +5,8 @@ PROP = dict(
     extract=["editor"],
     lean_targets=["Chewing.Props.C05"],
     runs=[dict(bin="comp"), dict(bin="editor"),
-          dict(bin="editor", args=["--script", "c05"], tag="editor-c05-overshoot")],
+          dict(bin="editor", args=["--script", "c05"], tag="editor-c05-overshoot"),
+          dict(bin="capi_props", tag="capi_props", args=["--histories", "300", "--calls", "40"], args_thorough=["--histories", "6000", "--calls", "40"])],
     scope=comp_scope("cedc", "ed"),
     level="proof",
     exhaustive=False,
@@ -57,7 +58,8 @@ MANIFEST = dict(
          "and the cursor advances by one; a chosen phrase moves no symbol and restores the cursor, one further with "
          "auto_shift_cursor; a replacing symbol changes one position) - a saved cursor that is never restored (seeded change: "
          "CapsLock closing the list without cancel_selecting) is reported with the key history (stats c05_list_frames_*, "
-         "c05_after_list_closed_by_or_under_mode_change_*).",
+         "c05_after_list_closed_by_or_under_mode_change_*). "
+         "C API (round 2, run capi_props): generated key/API histories (every chewing_handle_* handler incl. Default with all printable characters and non-characters, chewing_cand_*, option setters, buffer calls; three kinds of data directory) are driven through a C context and in lock-step through a twin chewing::editor::Editor built over the same data; after every call every C getter is compared with the twin's Rust getter (by-design differences modelled one by one: static vs heap strings, stateful Enumerate iterators, legacy zuin_*, chewing_ack) and this property's statement is evaluated on the C observations before/after the call; a difference or a failing statement is an oracle verdict with the history (FX2: the handlers narrowed the int key with `as u8`, repaired by fix a8c8390).",
     note="Trusted: Lean kernel (axioms propext, Classical.choice, Quot.sound only), the harness and the compiled model "
          "driver, the read-only snapshot hook and the guarded forwarding probe for the crate-private CompositionEditor. "
          "bounded_after_key is conditional on the conversion answer tiling the buffer (C03); the linked form "
